@@ -134,17 +134,33 @@ func verifRun(op *verifOp) (res *verifOut) {
 		if op.SignalMs > 0 {
 			defer verifInterruptSelf(time.Duration(op.SignalMs) * time.Millisecond)()
 		}
-		res.Err = verifErr(encode(op.Files, op.To, op.Output))
+		args := op.Args // the command is entered through its flag set, as from the command line
+		if len(args) == 0 {
+			args = append([]string{"-to", op.To, "-output", op.Output}, op.Files...)
+		}
+		res.Err = verifErr(encodeCmd().fn(args))
 	case "report":
 		if op.SignalMs > 0 {
 			defer verifInterruptSelf(time.Duration(op.SignalMs) * time.Millisecond)()
 		}
-		res.Err = verifErr(report(op.Files, op.Type, op.Output, time.Duration(op.Every), op.Buckets))
+		args := op.Args
+		if len(args) == 0 {
+			args = []string{"-type", op.Type, "-output", op.Output, "-every", time.Duration(op.Every).String()}
+			if op.Buckets != "" {
+				args = append(args, "-buckets", op.Buckets)
+			}
+			args = append(args, op.Files...)
+		}
+		res.Err = verifErr(reportCmd().fn(args))
 	case "plot":
 		if op.SignalMs > 0 {
 			defer verifInterruptSelf(time.Duration(op.SignalMs) * time.Millisecond)()
 		}
-		res.Err = verifErr(plotRun(op.Files, op.Threshold, op.Title, op.Output))
+		args := op.Args
+		if len(args) == 0 {
+			args = append([]string{"-threshold", strconv.Itoa(op.Threshold), "-title", op.Title, "-output", op.Output}, op.Files...)
+		}
+		res.Err = verifErr(plotCmd().fn(args))
 	case "attack":
 		res.Err = verifErr(attackCmd().fn(op.Args))
 	case "decoder":
